@@ -36,6 +36,8 @@ pub struct Names {
     pub ascii_only: bool,
     /// sometimes produce very long option names (rendering properties)
     pub long_names: bool,
+    /// string values are sometimes empty (callers whose oracle does not need unique tokens)
+    pub empty_values: bool,
 }
 
 impl Names {
@@ -472,9 +474,17 @@ pub fn pick_alias(u: &mut Un, n: &NamedSpec) -> Alias {
 pub fn gen_value(u: &mut Un, names: &mut Names, ty: Ty) -> Vec<u8> {
     let k = names.val();
     match ty {
-        Ty::Str => format!("v{}", k).into_bytes(),
+        Ty::Str => {
+            if names.empty_values && u.chance(8) {
+                Vec::new()
+            } else {
+                format!("v{}", k).into_bytes()
+            }
+        }
         Ty::Os | Ty::Path => {
-            if u.chance(40) {
+            if names.empty_values && u.chance(6) {
+                Vec::new()
+            } else if u.chance(40) {
                 let mut b = format!("o{}", k).into_bytes();
                 b.push(0xff);
                 b
